@@ -105,7 +105,7 @@ Compatible(a, b) == \A x, y \in Rng(a) \cap Rng(b) : (Pos(a, x) < Pos(a, y)) <=>
 NoDup(a) == \A i, j \in DOMAIN a : a[i] = a[j] => i = j
 OrdersOf(r) == UNION {Rng(r.specs[s].orders) : s \in DOMAIN r.specs}
 OrderWithin(r) == \A a, b \in OrdersOf(r) : NoDup(a) /\ Compatible(a, b)
-OrderAcross(r) == \A q \in Rng(runs) : \A a \in OrdersOf(r), b \in OrdersOf(q) : Compatible(a, b)
+OrderAcross == \A q, r \in Rng(runs) : \A a \in OrdersOf(r), b \in OrdersOf(q) : Compatible(a, b)
 SameOut(r) == runs # <<>> =>
                  /\ Len(r.specs) = Len(runs[1].specs)
                  /\ \A s \in DOMAIN r.specs : /\ r.specs[s].sig = runs[1].specs[s].sig
@@ -114,7 +114,9 @@ SpecsOK(r) == \A s \in DOMAIN r.specs :
                  LET x == r.specs[s]  c == content[x.si] IN
                  /\ ProvOK(x.out, c.lines)
                  /\ BlankOK(x.out, x.stored, c.lines, c.sp, x.path)
-RunOK == LET r == Ev IN SpecsOK(r) /\ OrderWithin(r) /\ OrderAcross(r) /\ SameOut(r)
+(* a run is compared with the first one as soon as it is read (Deterministic); the orders of all runs are      *)
+(* compared at the end of the trace (OneOrder), so that a case whose OUTPUT depends on the order is named so *)
+RunOK == LET r == Ev IN SpecsOK(r) /\ OrderWithin(r) /\ SameOut(r)
 
 Accepts ==
     CASE Ev.ev = "spec"    -> TRUE
@@ -122,6 +124,7 @@ Accepts ==
       [] Ev.ev = "endspec" -> EndOK
       [] Ev.ev = "report"  -> ReportOK
       [] Ev.ev = "run"     -> RunOK
+      [] Ev.ev = "endruns" -> OrderAcross
       [] OTHER -> FALSE
 
 Keep == UNCHANGED <<phase, cf, ord, run, cur, cnt, outs, report>>
@@ -193,14 +196,14 @@ DiagRun ==
         ELSE IF ~ProvOK(x.out, content[x.si].lines) THEN "ProvenanceMonotone:order"
         ELSE "BlankCollapses:" \o x.path
     ELSE IF ~SameOut(r) THEN "Deterministic:" \o cf.fam \o ":across-hash-seeds"
-    ELSE IF ~OrderWithin(r) THEN "OneOrder:within-one-process"
-    ELSE "OneOrder:across-hash-seeds"
+    ELSE "OneOrder:within-one-process"
 
 Diagnose ==
     CASE Ev.ev = "line"    -> DiagLine
       [] Ev.ev = "endspec" -> DiagEnd
       [] Ev.ev = "report"  -> DiagReport
       [] Ev.ev = "run"     -> DiagRun
+      [] Ev.ev = "endruns" -> "OneOrder:across-hash-seeds"
       [] OTHER -> "unknown-event"
 
 Advance ==
